@@ -3,12 +3,12 @@
 #   existing suite passes with the patch, demo fails with it, demo passes without it.
 # Confirmed ones are copied to /verif/seeded/<PROP>-m<k>/ with confirm.json.
 set -u
-P="$1"; WT="/tmp/wt-$P"; export CARGO_NET_OFFLINE=true
-export CARGO_TARGET_DIR="/tmp/seedtarget-$P"
+P="$1"; WT="${2:-/tmp/wt-$P}"; TAG="${3:-}"; export CARGO_NET_OFFLINE=true
+export CARGO_TARGET_DIR="/tmp/seedtarget-$P$TAG"
 cd "$WT" || exit 2
 for D in "$WT"/SEEDED/m*; do
   [ -d "$D" ] || continue
-  K=$(basename "$D"); OUT="/verif/seeded/$P-$K"
+  K=$(basename "$D"); OUT="/verif/seeded/$P-$TAG$K"
   git checkout -q -- . ; rm -f tests/demo_seed.rs examples/demo_seed.rs
   if ! git apply --check "$D/patch.diff" 2>/dev/null; then echo "$P $K: patch does not apply"; continue; fi
   if grep -qE '#\[(tokio::)?test' "$D/demo.rs"; then MODE=test; mkdir -p tests; DEMO=tests/demo_seed.rs; RUN="cargo test --offline --test demo_seed -- --test-threads=4"; else MODE=example; mkdir -p examples; DEMO=examples/demo_seed.rs; RUN="cargo run --offline --example demo_seed"; fi
@@ -35,7 +35,7 @@ src,dst,p,k,mode=sys.argv[1:6]
 try: m=json.load(open(src))
 except Exception as e: m={"property":p,"summary":"(meta.json of the sub-agent unreadable: %s)"%e}
 m["confirmed_by_builder"]={"ran":[
-  "scratch worktree /tmp/wt-%s (git worktree of /repo HEAD), shared target dir outside /repo and /verif"%p,
+  "scratch git worktree of /repo HEAD under /tmp (property %s), target dir outside /repo and /verif"%p,
   "demo on pristine tree (%s mode): exit 0"%mode,
   "git apply patch.diff; cargo test --workspace --no-fail-fast --offline: exit 0 (existing suite still passes)",
   "cargo build --offline --features verif: exit 0",
